@@ -1,4 +1,5 @@
 import CCV.Drv.C13
+import CCV.Drv.C20
 import CCV.Drv.C19
 import CCV.Drv.C09
 import CCV.Drv.C18
@@ -24,6 +25,7 @@ open CCV.Drv
 def dispatch (line : String) : String :=
   match line.trimAscii.toString.splitOn " " with
   | "C13" :: rest => C13.handle rest
+  | "C20" :: rest => C20.handle rest
   | "C19" :: rest => C19.handle rest
   | "C09" :: rest => C09.handle rest
   | "C18" :: rest => C18.handle rest
